@@ -1022,3 +1022,64 @@ func (e *Engine) sharedHeap(a, b Value) string {
 	}
 	return res
 }
+
+// mapKeySetsDiffer: walking a and b in parallel, some pair of corresponding maps of
+// equal length has different key sets (the excuse predicate of a known finding).
+func (e *Engine) mapKeySetsDiffer(a, b Value, depth int) *Term {
+	if depth > 40 {
+		return tFalse
+	}
+	switch x := a.(type) {
+	case Iface:
+		y, ok := b.(Iface)
+		if !ok || x.T == nil || y.T == nil {
+			return tFalse
+		}
+		return e.mapKeySetsDiffer(x.V, y.V, depth+1)
+	case *Agg:
+		y, ok := b.(*Agg)
+		if !ok || len(x.F) != len(y.F) {
+			return tFalse
+		}
+		r := tFalse
+		for i := range x.F {
+			r = tOr(r, e.mapKeySetsDiffer(x.F[i], y.F[i], depth+1))
+		}
+		return r
+	case Pointer:
+		y, ok := b.(Pointer)
+		if !ok || x.O == nil || y.O == nil {
+			return tFalse
+		}
+		return e.mapKeySetsDiffer(navigate(x.O.Val, x.Path), navigate(y.O.Val, y.Path), depth+1)
+	case Slice:
+		y, ok := b.(Slice)
+		if !ok || x.Len != y.Len {
+			return tFalse
+		}
+		r := tFalse
+		xs, ys := sliceElems(x), sliceElems(y)
+		for i := range xs {
+			r = tOr(r, e.mapKeySetsDiffer(xs[i], ys[i], depth+1))
+		}
+		return r
+	case *MapV:
+		y, ok := b.(*MapV)
+		if !ok || x == nil || y == nil || len(x.Entries) != len(y.Entries) {
+			return tFalse
+		}
+		r := tFalse
+		for _, ex := range x.Entries {
+			found := tFalse
+			for _, ey := range y.Entries {
+				same := asBoolTerm(e.eqVal(ex.K, ey.K))
+				found = tOr(found, same)
+				// nested maps under equal keys
+				r = tOr(r, tAnd(same, e.mapKeySetsDiffer(ex.V, ey.V, depth+1)))
+			}
+			r = tOr(r, tNot(found))
+		}
+		return r
+	}
+	return tFalse
+}
